@@ -159,6 +159,33 @@ fn write_cases(ctx: &mut Ctx) {
             let flat: Vec<usize> = rm.runs.iter().flat_map(|r| [r.0, r.1]).collect();
             emit(ctx, &mut k, &rv, format!("type rl\nn {}\nruns {}\n", rn, list(&flat)));
         }
+        // Directed: the final block ends with exactly `target` code units used (58..=64), after 0..2 earlier blocks.
+        {
+            let target = 58 + (i + ctx.shard) % 7;
+            let mut druns: Vec<(usize, usize)> = Vec::new();
+            let mut pos = 0usize;
+            let mut add = |units: usize, druns: &mut Vec<(usize, usize)>, pos: &mut usize| {
+                // 2 units: gap 1..7, length 1..8; 3 units: length 9..64 (two units for length - 1).
+                let gap = 1 + (druns.len() % 7);
+                let l = if units == 2 { 1 + druns.len() % 8 } else { 9 + druns.len() % 50 };
+                druns.push((*pos + gap, l));
+                *pos += gap + l;
+            };
+            for _ in 0..((i / 7) % 3) { for _ in 0..32 { add(2, &mut druns, &mut pos); } }   // full 64-unit blocks
+            let threes = target % 2 + 2 * ((i / 3) % 3);                                          // parity and a few more
+            let twos = (target - 3 * threes) / 2;
+            if 3 * threes + 2 * twos == target {
+                for _ in 0..threes { add(3, &mut druns, &mut pos); }
+                for _ in 0..twos { add(2, &mut druns, &mut pos); }
+                let dn = pos + (i % 2) * 17;
+                let dm = RunModel::new(dn, &druns);
+                if let Ok(rv) = mk::rl_runs(dn, &dm.runs) {
+                    let flat: Vec<usize> = dm.runs.iter().flat_map(|r| [r.0, r.1]).collect();
+                    emit(ctx, &mut k, &rv, format!("type rl\nn {}\nruns {}\n", dn, list(&flat)));
+                    ctx.count(&format!("written.rl.final_block_units.{}", target), 1);
+                }
+            }
+        }
         // Wavelet matrix and core.
         let wwidth = 1 + rng.below(12);
         let wlen = match i % 4 { 0 => 0, 1 => 1 + rng.below(5), 2 => 64, _ => rng.below(700) };
